@@ -10,6 +10,7 @@ mod llp;
 mod probe;
 mod split;
 mod scc;
+mod sort;
 mod util;
 mod visit;
 
@@ -67,6 +68,7 @@ fn main() {
         "visit" => visit::run(seed, count, maxn, &mode, &mut out),
         "split" => split::run(seed, count, maxn, &mode, &mut out),
         "scc" => scc::run(seed, count, maxn, &mode, &mut out),
+        "sort" => sort::run(seed, count, maxn, &mode, &mut out),
         other => {
             eprintln!("unknown channel {other}");
             std::process::exit(2);
